@@ -641,6 +641,13 @@ func runC06(c *core.Ctx) core.Meta {
 								continue
 							}
 							stRead.Instances++
+							if cv, isCv := r.(*ssa.Convert); isCv && mname != "SCC" {
+								if bt, isB := cv.Type().Underlying().(*types.Basic); isB && bt.Info()&types.IsInteger != 0 && c.Sizeof(cv.Type()) < 8 {
+									stRead.Ob(false)
+									c.ReportAt("R06.flow", fn, r.Pos(), mname+"-narrowed", "inside the lane loop the 64-lane mask "+mname+"() is converted to "+cv.Type().String()+" before lane i's bit is taken: lanes 32..63 always read 0, so what a lane computes depends on its number")
+									continue
+								}
+							}
 							ok := laneBitUse(r, val, l.iv)
 							if ph, isPhi := r.(*ssa.Phi); isPhi && ph.Block() == l.header && validAccumulator(ph, l) {
 								ok = true // seeds a lane-mask accumulator (each lane updates only its own bit)
